@@ -13,6 +13,9 @@ the definitions of `Gsu.Model.Ixbuf` that `Drive/C11.lean` executes against `ixb
 sizes through the regenerated `Gsu.Gen.Ixbuf.goal`.
 -/
 import Gsu.Proofs.Ixbuf
+import Gsu.Proofs.IxbufMerge3
+import Gsu.Proofs.IxbufIns2
+import Gsu.Proofs.IxbufAll
 import Gsu.Gen.Ixbuf
 namespace Gsu.Props.C11
 open Gsu.Proto Gsu.Ixbuf
@@ -109,53 +112,133 @@ example : let ls : List Layer := [[([1], .add 1), ([2], .add 2)], [([1], .upd 3)
 
 /-! ## the chunked mirror (`Merge`, `merge.merge`, `passthru`, `outputSlot`, `outputChunk`, `flushbuf`)
 
-FULL STATEMENT `mergeChunks_flat` (NOT proved):
-  for buffers `bs` (at least two) that are well formed (`Buf.WF`), have strictly sorted keys and
-  are valid when applied in order,
-    `∃ r, merge bs = some r ∧ mergeFlat ((bs.filter (·.size ≠ 0)).map Buf.flatten) = some r.flatten`
-  i.e. the k-way merge with chunk pass-through, the `goal/2` rule and buffer flushing flattens to
-  the flat merge of `mergeFlat_spec` (hence: is sorted/unique and equals applying in order).
-Proved below is only the part "no empty chunk, `size` = number of slots".  Missing: the loop
-invariant relating the k-way minimum selection / pass-through to the left fold of `merge2`
-(and that the fuel suffices).  The equation itself is *executed* by the driver on every merge
-line of the correspondence run (output flag `flat=t`), and the direct oracles
-`merge-not-sequential` / `merge-unsorted` check it on the implementation.
+`mergeChunks_flat` (FULL): the k-way merge with minimum selection (earliest input wins ties), chunk
+pass-through, the `goal/2` rule and buffer flushing flattens to the flat left fold `mergeFlat` of
+`mergeFlat_spec`, as an equation of `Option`s: it panics exactly when the flat fold does, and the
+fuel of the mirror's loop always suffices.  Proof: `Gsu/Proofs/IxbufMerge{,2,3}.lean` (loop
+invariant: output chunks strictly below, buffer not above, every remaining key; each iteration
+leaves `foldlM merge2 (out.flatten ++ buf) remaining` unchanged and consumes a slot).
+`merge_spec` combines it with `mergeFlat_spec`: merge = apply in order, sorted, unique, well formed.
+The same equation is still *executed* by the driver on every merge line of the correspondence run
+(output flag `flat=t`), and the direct oracles `merge-not-sequential` / `merge-unsorted` check it
+on the implementation.
 
 `inputs_unchanged`: not a theorem — the model is functional, inputs cannot change.  It is checked
 only by the harness oracle `merge-input-mutated` (deep snapshot of every input before `Merge`,
 compared afterwards, also when the result shares chunks with an input). -/
 
-/-- Part of `mergeChunks_flat`: merging well-formed buffers (no empty chunk, `size` = number of
-slots) gives a well-formed buffer, for any inputs on which `merge` does not panic. -/
-theorem mergeChunks_flat_partial (bs : List Buf) (r : Buf) (hb : ∀ b ∈ bs, b.WF)
+/-- `Merge` of at least two well-formed buffers (no empty chunk, `size` = number of slots) with
+strictly sorted keys: the flattened result of the chunked k-way merge *is* the flat merge of the
+flattened non-empty inputs — including the panic case (`none` on both sides). No validity
+assumption on the changes. -/
+theorem mergeChunks_flat (bs : List Buf) (hlen : 2 ≤ bs.length) (hwf : ∀ b ∈ bs, b.WF)
+    (hs : ∀ b ∈ bs, Sorted b.flatten) :
+    (merge bs).map Buf.flatten = mergeFlat ((bs.filter (fun b => b.size ≠ 0)).map Buf.flatten) :=
+  Gsu.Ixbuf.merge_flat bs hlen hwf hs
+
+/-- The property for the chunked mirror the driver runs: merging at least two well-formed, sorted
+buffers whose changes are valid when applied one buffer after another to `m` never panics, and
+the result is well formed, has strictly sorted (hence unique, `sorted_unique`) keys, and applying
+it to `m` yields the same key→state map as applying the buffers in order. -/
+theorem merge_spec (bs : List Buf) (m m' : Map) (hlen : 2 ≤ bs.length) (hwf : ∀ b ∈ bs, b.WF)
+    (hs : ∀ b ∈ bs, Sorted b.flatten) (h : applyLayers m (bs.map Buf.flatten) = some m') :
+    ∃ r, merge bs = some r ∧ r.WF ∧ Sorted r.flatten ∧ applyLayer m r.flatten = some m' :=
+  Gsu.Ixbuf.merge_spec bs m m' hlen hwf hs h
+
+/-- Closure: whenever `Merge` of at least two well-formed sorted buffers does not panic (valid
+changes or not), the result is again well formed with strictly sorted keys — it satisfies the
+hypotheses of `mergeChunks_flat` / `merge_spec` as an input of a later merge. -/
+theorem merge_closed (bs : List Buf) (r : Buf) (hlen : 2 ≤ bs.length) (hwf : ∀ b ∈ bs, b.WF)
+    (hs : ∀ b ∈ bs, Sorted b.flatten) (h : merge bs = some r) : r.WF ∧ Sorted r.flatten :=
+  Gsu.Ixbuf.merge_inv bs r hlen hwf hs h
+
+/-- Independently of sortedness and validity: merging well-formed buffers gives a well-formed
+buffer (no empty chunk, `size` = number of slots) whenever `merge` does not panic.
+(Formerly `mergeChunks_flat_partial`.) -/
+theorem merge_wellformed (bs : List Buf) (r : Buf) (hb : ∀ b ∈ bs, b.WF)
     (h : merge bs = some r) : r.WF :=
   Gsu.Ixbuf.merge_wf bs r hb h
 
--- non-vacuity: a merge that combines (upd·del) across two well-formed buffers
+-- non-vacuity: a merge that combines (upd·del) across two well-formed sorted buffers, valid from
+-- a map in which key [2] is present
 example : let a : Buf := { chunks := [[([1], .add 1), ([2], .upd 2)]], size := 2 }
           let b : Buf := { chunks := [[([2], .del 2), ([3], .add 4)]], size := 2 }
-    merge [a, b] = some { chunks := [[([1], .add 1), ([2], .del 2), ([3], .add 4)]], size := 3 } := by
-  decide
+    merge [a, b] = some { chunks := [[([1], .add 1), ([2], .del 2), ([3], .add 4)]], size := 3 } ∧
+    (∀ x ∈ [a, b], x.WF) ∧ (∀ x ∈ [a, b], Sorted x.flatten) ∧
+    (applyLayers (setKey (fun _ => none) [2] (some 7)) ([a, b].map Buf.flatten)).isSome := by
+  refine ⟨by decide, ?_, ?_, ?_⟩
+  · simp [Buf.WF, Buf.flatten]
+  · simp [Buf.flatten, Sorted]; decide
+  · simp [applyLayers, applyLayer, app, setKey, Buf.flatten]
 
 /-! ## `ixbuf.Insert`
 
-FULL STATEMENT `insert_split_inv` (NOT proved): for a well-formed buffer `b` with strictly sorted
-keys, `insert b k c = some (b', old)` implies `b'` is well formed, strictly sorted, and
-`b'.flatten` is `b.flatten` with key `k` updated by the per-key step `mergeStep`.
-Proved below: the "insert in place" + chunk split step, for any position.  Missing: that
-`searchChunks`/`search` (binary searches) return the sorted position, and the branch that
-combines with an existing key / removes the slot (`remove`).  Both are exercised by the
-correspondence run (one Q line per Insert-built buffer) and the oracles `insert-not-sequential`,
-`insert-unsorted`. -/
+`insert_split_inv` (FULL): one `Insert`/`Update`/`Delete` (= `insert` with an `add`/`upd`/`del`
+change) on a buffer satisfying the invariant `BufInv` (no empty chunk, `size` = number of slots,
+keys strictly sorted over the whole chunk list) and a chunk-size bound keeps both, and is
+functionally the flat two-way merge with the one-slot layer `[(k, c)]` — i.e. the binary searches
+`searchChunks`/`search` find the sorted position, an existing key is combined (old change on the
+left) or removed when the combination is 0, a new key is inserted in place and the chunk split
+when it exceeds the regenerated `goal`.  `insert_flat` is the same as an equation of `Option`s
+(panic ⟺ the flat merge panics ⟺ `Combine` of the existing change with the new one panics).
+`insertAll_spec`: every history of valid changes from the empty buffer.
+Proofs: `Gsu/Proofs/IxbufIns{,2}.lean`.
+Chunk-size bound: "every chunk ≤ goal(size)" is NOT an invariant of the code (removals shrink
+`size` and `goal` is a step function); what is preserved is `ChunkBound M` (1 ≤ len ≤ goal(M)) for
+every `M` ≥ the largest size reached, hence ≤ 768 always. -/
 
 /-- the split point lies strictly inside the chunk (both halves non-empty) -/
 theorem split_point_inside (n i : Nat) (hn : 4 ≤ n) : 0 < splitAt n i ∧ splitAt n i < n :=
   Gsu.Ixbuf.splitAt_bounds n i hn
 
-/-- Part of `insert_split_inv`: inserting a new slot at position `i` of chunk `ci` (splitting the
-chunk when it exceeds the generated `goal`) keeps all chunks non-empty, adds one to `size`, and
-changes the flattened content only by that one slot. -/
-theorem insert_split_inv_partial (b : Buf) (ci i : Nat) (ch : Chunk) (k : Bytes) (c : Chg)
+/-- One `Insert` that does not panic on a buffer with the invariant and chunk lengths in
+`[1, goal(M)]`, `size + 1 ≤ M`: the invariant (well formed, strictly sorted = unique keys) and the
+chunk bound hold afterwards; the new content is the flat merge of the old content with `[(k, c)]`;
+`oldoff` is the one `Combine` returns for the existing change of `k`, and 0 when `k` was absent. -/
+theorem insert_split_inv (b b' : Buf) (k : Bytes) (c : Chg) (old M : Nat) (hinv : BufInv b)
+    (hb : ChunkBound M b) (hM : b.size + 1 ≤ M) (h : insert b k c = some (b', old)) :
+    BufInv b' ∧ merge2 b.flatten [(k, c)] = some b'.flatten ∧
+    (∀ c1, (k, c1) ∈ b.flatten → (combineOld c1 c).map (·.2) = some old) ∧
+    ((∀ c1, (k, c1) ∉ b.flatten) → old = 0) ∧ ChunkBound M b' :=
+  Gsu.Ixbuf.insert_split_inv b b' k c old M hinv hb hM h
+
+/-- `Insert` = flat merge with a one-slot layer, panic case included (offset 0 excluded: Go panics
+on `off == 0` before looking at the buffer). -/
+theorem insert_flat (b : Buf) (k : Bytes) (c : Chg) (hinv : BufInv b) (hc : c ≠ .add 0) :
+    (insert b k c).map (fun r => r.1.flatten) = merge2 b.flatten [(k, c)] :=
+  Gsu.Ixbuf.insert_flat b k c hinv hc
+
+/-- `Insert` panics exactly when the key is present with a change that `Combine` rejects -/
+theorem insert_panics_iff (b : Buf) (k : Bytes) (c : Chg) (hinv : BufInv b) (hc : c ≠ .add 0) :
+    insert b k c = none ↔ ∃ c1, (k, c1) ∈ b.flatten ∧ combine c1 c = none :=
+  Gsu.Ixbuf.insert_none_iff b k c hinv hc
+
+/-- Every history of `Insert`/`Update`/`Delete` from the empty buffer that is a valid change
+sequence from `m`: no `Insert` panics; the buffer is the flat merge of the one-slot layers, has the
+effect of applying the changes one by one, satisfies the invariant, chunk lengths in
+`[1, goal(#ops)]`. -/
+theorem insertAll_spec (ops : List (Bytes × Chg)) (n : Nat) (m m' : Map)
+    (hops : ∀ o ∈ ops, o.2 ≠ .add 0)
+    (h : applyLayers m (ops.map (fun o => [o])) = some m') :
+    ∃ b olds, insertAll { chunks := [], size := 0 } n ops = some (b, olds) ∧
+      mergeFlat (ops.map (fun o => [o])) = some b.flatten ∧
+      applyLayer m b.flatten = some m' ∧ BufInv b ∧ ChunkBound ops.length b ∧ b.size ≤ ops.length :=
+  Gsu.Ixbuf.insertAll_spec ops n m m' hops h
+
+/-- Any history (valid or not) that does not panic leaves the invariant and the bound, and never
+a chunk longer than 768. -/
+theorem insertAll_inv (ops : List (Bytes × Chg)) (b : Buf) (n : Nat) (olds : List (Nat × Nat))
+    (h : insertAll { chunks := [], size := 0 } n ops = some (b, olds)) :
+    BufInv b ∧ ChunkBound ops.length b ∧ ∀ ch ∈ b.chunks, 1 ≤ ch.length ∧ ch.length ≤ 768 := by
+  have hinv0 : BufInv { chunks := [], size := 0 } := ⟨⟨by simp, rfl⟩, Gsu.Ixbuf.sorted_nil⟩
+  have hb := (Gsu.Ixbuf.insertAll_chunkBound ops _ b n ops.length olds hinv0
+    (by intro ch hch; cases hch) (by simp) h).1
+  exact ⟨Gsu.Ixbuf.insertAll_inv ops _ b n olds hinv0 h, hb, Gsu.Ixbuf.chunkBound_768 hb⟩
+
+/-- The in-place step for an arbitrary position (formerly `insert_split_inv_partial`): inserting a
+new slot at position `i` of chunk `ci` (splitting the chunk when it exceeds the generated `goal`)
+keeps all chunks non-empty, adds one to `size`, and changes the flattened content only by that slot. -/
+theorem insertNew_step (b : Buf) (ci i : Nat) (ch : Chunk) (k : Bytes) (c : Chg)
     (hci : ci < b.chunks.length) (hi : i ≤ ch.length) (hne : ∀ x ∈ b.chunks, x ≠ []) :
     (∀ x ∈ (insertNew b ci i ch k c).chunks, x ≠ []) ∧
     (insertNew b ci i ch k c).size = b.size + 1 ∧
@@ -167,5 +250,30 @@ theorem insert_split_inv_partial (b : Buf) (ci i : Nat) (ch : Chunk) (k : Bytes)
 -- non-vacuity: Inserts that combine (add·upd) and order keys
 example : (insertAll { chunks := [], size := 0 } 0 [([2], .add 1), ([1], .add 2), ([2], .upd 3)]).map (·.1) =
     some { chunks := [[([1], .add 2), ([2], .add 3)]], size := 2 } := by decide
+
+/-! ## Insert-built buffers merged: the whole property for the mirror the driver runs -/
+
+/-- For at least two op sequences that are valid when applied one after another to `m` (add only
+on absent, update/delete only on present keys, across the sequences): building one buffer per
+sequence with `Insert` never panics, `Merge` of these buffers never panics, and the merged buffer
+is well formed, has strictly sorted unique keys and, applied to `m`, gives the same key→state map
+as applying every change in order. -/
+theorem build_merge_spec (opss : List (List (Bytes × Chg))) (m m' : Map) (hlen : 2 ≤ opss.length)
+    (hops : ∀ ops ∈ opss, ∀ o ∈ ops, o.2 ≠ .add 0)
+    (h : applyLayers m (opss.flatten.map (fun o => [o])) = some m') :
+    ∃ (bs : List Buf) (r : Buf), opss.map built = bs.map some ∧ merge bs = some r ∧ BufInv r ∧
+      applyLayer m r.flatten = some m' :=
+  Gsu.Ixbuf.build_merge_spec opss m m' hlen hops h
+
+-- non-vacuity: two valid sequences with add·upd inside a buffer and upd·del / del·add across
+example : let opss : List (List (Bytes × Chg)) :=
+      [[([2], .add 1), ([1], .add 2), ([2], .upd 3)], [([2], .del 3), ([2], .add 4), ([1], .upd 5)]]
+    (applyLayers (fun _ => none) (opss.flatten.map (fun o => [o]))).isSome ∧
+      (∀ ops ∈ opss, ∀ o ∈ ops, o.2 ≠ .add 0) := by
+  refine ⟨?_, ?_⟩
+  · simp [applyLayers, applyLayer, app, setKey]
+  · simp only [List.mem_cons, List.not_mem_nil, or_false]
+    rintro ops (rfl | rfl) o ho <;> simp only [List.mem_cons, List.not_mem_nil, or_false] at ho <;>
+      rcases ho with rfl | rfl | rfl <;> simp
 
 end Gsu.Props.C11
